@@ -210,7 +210,7 @@ def fuzz_unit(focus_mask, quick_runs, thorough_runs, thorough_jobs=16):
 
 PROPS['C08']['units'][2] = fuzz_unit(32, 40000, 300000)
 
-HIST_RULE = ('histories = sequences of opcodes (51 kinds: every constructor/factory with valid and deliberately invalid arguments, copy, move, copy-/move-assignment, self-assignment, self-move-assignment, cross-order assignment, '
+HIST_RULE = ('histories = sequences of opcodes (54 kinds: every constructor/factory with valid and deliberately invalid arguments, copy, move, copy-/move-assignment, self-assignment, self-move-assignment (splines and supports), std::swap, cross-order assignment, re-seating onto another grid (P_REGRID), operator objects copied / assigned / moved with their source destroyed, '
              'scalar * / *= /=, unary minus, + - * across orders 0..3, += -=, linearCombination, primitive / compound / spline-valued operator application, linear and bilinear forms, evaluation, union/intersection, checked accessors with index classes around 2^32, 2^63, SIZE_MAX, '
              'calls that must throw) over a pool of grids, supports and splines; rapidcheck generates vector<Op> (free histories of size-scaled length and histories with a populating prefix + 1..40 ops), libFuzzer mutates the same encoding as bytes (T=double). ')
 
